@@ -396,12 +396,45 @@ def run(P, R, tier):
         raise sub_err
     k = 0
     for o in sub.obs:
-        if o.rule == 'C10.c' and ('sub-part' in o.detail or 'renumbering moves' in o.detail):
+        if (o.rule == 'C10.c' and ('sub-part' in o.detail or 'renumbering moves' in o.detail)) or (o.rule == 'C10.a' and 'removal above' in (o.construct or '')):
             k += 1
             R._add('C18.c', (o.path, o.site.split('::')[-1]), None, o.status, 'write-target injectivity: ' + o.detail, construct=o.construct)
     if sub_err is None:
         R.floor('C18.c', 'write-target obligations of the packing tasks', k, 2)
     common.fresh_arguments(P, R, 'C18.d', floor=12)
+    # functions handed to a thread pool complete in any order: a result list filled by `append` from inside the tasks is in COMPLETION order, not in the order
+    # of the inputs (Executor.map / as_completed preserve or expose the order themselves)
+    npool = 0
+    for f in P.all_funcs():
+        if isinstance(f.node, ast.Lambda):
+            continue
+        pools = set()
+        for st in walk_own(f.node):
+            if isinstance(st, ast.With):
+                for it in st.items:
+                    if isinstance(it.context_expr, ast.Call) and norm(it.context_expr.func).split('.')[-1] in ('ThreadPoolExecutor', 'ProcessPoolExecutor', 'ThreadPool', 'Pool') and isinstance(it.optional_vars, ast.Name):
+                        pools.add(it.optional_vars.id)
+            if isinstance(st, ast.Assign) and isinstance(st.value, ast.Call) and norm(st.value.func).split('.')[-1] in ('ThreadPoolExecutor', 'ThreadPool', 'Thread'):
+                pools |= {t.id for t in st.targets if isinstance(t, ast.Name)}
+        for c in astq.own_calls(f):
+            is_pool_call = isinstance(c.func, ast.Attribute) and c.func.attr in ('map', 'submit', 'imap', 'imap_unordered', 'apply_async', 'starmap') and isinstance(c.func.value, ast.Name) and c.func.value.id in pools
+            is_thread = norm(c.func).split('.')[-1] == 'Thread' and astq.arg_of(c, kw='target') is not None
+            if not (is_pool_call or is_thread):
+                continue
+            tgt = astq.arg_of(c, kw='target') if is_thread else (c.args[0] if c.args else None)
+            g = None
+            if isinstance(tgt, ast.Name):
+                r_ = P.resolve_expr_static(f.mod, tgt, local=f)
+                g = r_[1] if r_ and r_[0] == 'func' else None
+            if g is None:
+                continue
+            npool += 1
+            local = set(g.params) | {n_.id for n_ in walk_own(g.node) if isinstance(n_, ast.Name) and isinstance(n_.ctx, ast.Store)}
+            shared = [x for x in astq.own_calls(g) if isinstance(x.func, ast.Attribute) and x.func.attr in ('append', 'extend', 'insert') and isinstance(x.func.value, ast.Name) and x.func.value.id not in local]
+            R.check(not shared, 'C18.c', g, shared[0] if shared else c, f'the pool task {g.name} returns its result (no shared list filled in completion order)',
+                    f'`{norm(shared[0]) if shared else ""}` in the pool task {g.name} fills a shared list as the calls FINISH: the results are in completion order, but the caller pairs them with its '
+                    'inputs by position', construct=f'{g.qualname}: results collected in completion order')
+    R.count('thread_pool_tasks', npool)
     common.evaluated_once(P, R, 'C18.c', 'concurrent pack_partitions_to_parquet calls (or any two calls in one process) that rely on it write into the same "unique" directories')
     # C18.e: objects shared between threads (arrays, indexes, frames) are not written by their query methods; only constructors and the
     # enumerated lazily-built caches store attributes (the check-then-build race of those caches is NOT decided, see module docstring)
